@@ -131,3 +131,10 @@ check(
     "Equality is the classes' own == plus unit/category/type/quantity/dimension fields; finite values; values and container kinds are sampled.",
     "4/C19",
 )
+check(
+    "C20",
+    "runtime monitoring: grammar oracle - derived quantities produced by the library's own Scalar/Array/Quantity arithmetic and CreateDerived/ObtainQuantity requests; their unit, category, quantity-type and unit-name strings parsed by an independent grammar and compared with the composing map the quantity reports; exhaustive registered-string check for simple quantities",
+    "Held on thousands (thorough: tens of thousands) of derived quantities with 0-3 numerator and 0-3 denominator factors, exponents 1-4, repeated quantity types under different categories/units over 41 quantity types with atomic units: unit string parses to exactly the joined composing units and is written in the table's notation; category / quantity-type / unit-name strings list every factor with its exponent; strings stable when asked again; repr/str show the unit; every unit of the table as a simple quantity reports its registered unit, category, type and name.",
+    "Reference multisets come from the quantity's own GetCategoryToUnitAndExps() (C04 vouches for it); atomic (letters-only) symbols only.",
+    "4/C20",
+)
